@@ -7,7 +7,7 @@ PID = 'C14'
 def main(argv):
     rep = vlib.Report(PID, 'model_checking', argv)
     vlib.build_harness()
-    pp.run(rep, PID, common.pipeline_cfgs(rep, 'cuts'), modes='ctl-unsafe,ctl-safe')
+    pp.run(rep, PID, common.pipeline_cfgs(rep, 'cuts'), modes='ctl-unsafe,ctl-safe,ctl-sync1')
     # multi-source operators: external cut at every position; a source that ends synchronously inside its own subscription (also with a
     # panicking teardown) must not make the operator lose the subscriptions it already holds
     parts_multi.run(rep, PID, rep.tier == 'thorough')
